@@ -1059,6 +1059,112 @@ def g_seeding(R, tier):
             R.check(base + "/seeding/exactly-the-captured-parameters-are-copied-in", pairs == [("a", "a"), ("b", "b"), ("d", "d")], repr(pairs), replay=dict(kind="scope"))
 
 
+def g_globals_from_nested_scopes(R, tier):
+    """update_globals_from_lambda_or_comp(symt, stack): when the innermost namespace is a class,
+    exactly the names that are GLOBAL in the lambda/comprehension `symt` or in any scope nested in
+    it are added to that class namespace's set (they are what get_load_name reads as globals
+    inside nested binders); any other innermost namespace: no effect.  All flag valuations."""
+    import symtable as ST
+    ns = NS()
+    base = "namespaces.update_globals_from_lambda_or_comp"
+    for top_kind in ("class", "function", "global"):
+        def run(c):
+            m = Machine(stubs=stubs())
+            flags = {}
+
+            def sym_(node, name):
+                sy, f = mk_symbol(f"{node}.{name}")
+                sy.props["methods"]["get_name"] = lambda o, name=name: name
+                flags[(node, name)] = f
+                return sy
+
+            def table(tag, names, children):
+                syms = [sym_(tag, n_) for n_ in names]
+                return Opaque((tag, "symt"), None, cands=frozenset([ST.Function]), methods=dict(
+                    get_symbols=lambda o: list(syms), get_children=lambda o: list(children), get_name=lambda o: "lambda"))
+            leaf2 = table("L2", ["a", "d"], [])
+            leaf1 = table("L1", ["b"], [leaf2])
+            other = table("L3", ["c", "a"], [])
+            root = table("L0", ["a", "b", "e"], [leaf1, other])
+            top = mk_scope("T", top_kind, globals_used_in_comp={"kept"})
+            stack = [mk_scope("G", "global"), top]
+            m.call_value(ns.update_globals_from_lambda_or_comp, root, stack)
+            return dict(top=top, flags=flags)
+        paths = explore(run, max_paths=2000)
+        nm = f"{base}[innermost={top_kind}]"
+        if not paths_or_undecided(R, nm + "/paths", paths):
+            continue
+        bad = []
+        for p in paths:
+            if p.kind != "ok":
+                R.fail(f"{nm}/no-unexpected-raise/{p.ctx.signature()[:80]}", repr(p.value))
+                continue
+            got = set(p.value["top"].fields["globals_used_in_comp"])
+            if top_kind != "class":
+                if got != {"kept"}:
+                    bad.append((p.ctx.signature()[:120], got))
+                continue
+            want = {"kept"} | {name for (node, name), f in p.value["flags"].items() if p.ctx.valid(f["glob"])[0]}
+            undecided = [k for k, f in p.value["flags"].items() if not p.ctx.valid(f["glob"])[0] and not p.ctx.valid(z3.Not(f["glob"]))[0]]
+            if got != want or undecided:
+                bad.append((p.ctx.signature()[:160], sorted(got), sorted(want), undecided))
+        R.check(f"{nm}/" + ("adds-exactly-the-names-global-in-the-nested-scopes" if top_kind == "class" else "no-effect"), not bad,
+                f"{len(paths)} flag valuations; first mismatch: {bad[:1]}", replay=dict(kind="scope"))
+
+
+def g_small_contracts(R, tier):
+    """functions no other group runs (found by tools/harness_coverage.py)"""
+    ns = NS()
+    import symtable as ST
+
+    # NamespaceFunction.get_flow_ctrl_expr: hands out the return flag and remembers that it is used
+    def run(c):
+        m = Machine(stubs=stubs())
+        symt = mk_symt("T", symbols={}, frees=[], nonlocals=[], kind="function")
+        nsp = m.call_value(ns.NamespaceFunction, symt, [mk_scope("G", "global")])
+        before = nsp.flow_ctrl_return_used
+        e1 = m.call_value(ns.NamespaceFunction.get_flow_ctrl_expr, nsp)
+        e2 = m.call_value(ns.NamespaceFunction.get_flow_ctrl_expr, nsp)
+        return dict(nsp=nsp, before=before, e1=e1, e2=e2)
+    for p in explore(run):
+        if p.kind != "ok":
+            R.fail("namespaces.NamespaceFunction.get_flow_ctrl_expr/no-unexpected-raise", repr(p.value))
+            continue
+        v = p.value
+        R.check("namespaces.NamespaceFunction.get_flow_ctrl_expr/returns-the-return-flag-and-marks-it-used",
+                v["before"] is False and v["e1"] is v["nsp"].flow_ctrl_return_expr and v["e2"] is v["e1"] and v["nsp"].flow_ctrl_return_used is True
+                and v["e1"] is not v["nsp"].return_value_expr, repr((v["before"], v["e1"], v["nsp"].flow_ctrl_return_used)))
+
+    # generate_nsp: with nothing left to walk the root namespace is returned
+    ifn = ifunc_of(ns.generate_nsp)
+    loops = [s_ for s_ in ifn.node.body if isinstance(s_, ast.While)]
+    if len(loops) == 1:
+        loop = loops[0]
+        pre, post = ifn.node.body[:ifn.node.body.index(loop)], ifn.node.body[ifn.node.body.index(loop) + 1:]
+
+        def run2(c):
+            m = Machine()
+            symt = mk_symt("ROOT", kind="module")
+            symt.props["methods"]["get_children"] = lambda o: []
+            cfg = extract.repo_module("oneliner.config").Configs()
+            P_SYMT, P_CFG = [a_.arg for a_ in ifn.node.args.args][:2]
+            fr = Frame(ifn, {P_SYMT: symt, P_CFG: cfg}, ifn.globals, [], name="generate_nsp")
+            m.run(m.exec_block(pre, fr))
+            roots = [v_ for v_ in fr.locals.values() if isinstance(v_, ns.NamespaceGlobal)]
+            for k_, v_ in fr.locals.items():
+                if isinstance(v_, list) and not k_.startswith("_") and not (v_ and roots and v_[0] is roots[0]):
+                    v_[:] = []  # the walk is over: nothing left to visit
+            sig = m.run(m.exec_block(post, fr))
+            return dict(sig=sig, roots=roots, cfg=cfg)
+        for p in explore(run2):
+            if p.kind != "ok":
+                R.undecided("namespaces.generate_nsp/exit", repr(p.value))
+                continue
+            v = p.value
+            ok = v["sig"] is not None and v["sig"][0] == "return" and len(v["roots"]) == 1 and v["sig"][1] is v["roots"][0] and v["roots"][0].configs is v["cfg"]
+            R.check("namespaces.generate_nsp/exit/returns-the-root-namespace-carrying-the-given-options", ok, repr(v["sig"]))
+
+
 def g_for_target(R, tier):
     native_finding(R, "pending_nodes.PendingFor.get_result/loop-target-is-bound-in-the-enclosing-scope",
                    "the for target becomes the target of a list comprehension: it is local to the comprehension, so it is not visible after the loop, "
@@ -1066,7 +1172,7 @@ def g_for_target(R, tier):
                    "def f():\n    for i in range(3):\n        pass\n    def g():\n        return i\n    return i, g()\nr = f()\nfor k in range(2):\n    pass\nlast = k\n")
 
 
-GROUPS = {"nested_binders": g_nested_binders, "for_target": g_for_target, "namespace_isolation": g_namespace_isolation, "birthplace": g_birthplace, "method_super": g_method_super, "access_function": g_access_function, "access_class": g_access_class, "access_global": g_access_global,
+GROUPS = {"globals_from_nested_scopes": g_globals_from_nested_scopes, "small_contracts": g_small_contracts, "nested_binders": g_nested_binders, "for_target": g_for_target, "namespace_isolation": g_namespace_isolation, "birthplace": g_birthplace, "method_super": g_method_super, "access_function": g_access_function, "access_class": g_access_class, "access_global": g_access_global,
           "transform_dispatch": g_transform_dispatch, "transform_generic": g_transform_generic, "transform_names": g_transform_names,
           "transform_comp": g_transform_comp, "walk": g_walk, "seeding": g_seeding, "canary": c13.g_canary}
 
